@@ -12,6 +12,9 @@ def run_family(rep, pid, tier, seed):
     rep.notes.append('regression corpus: %d cases, %d failing' % (len(pre), n0))
     cases = GEN[pid](rnd, tier)
     run_buffer_family(rep, cases)
+    # programs of operations on live buffers shadowed by bit strings (aliasing, caches, shared state)
+    import bufseq
+    bufseq.run(rep, rng_for(seed, pid + '-programs'), 150 if tier == 'quick' else 2500, 40)
 
 
 def replay(case):
